@@ -6,6 +6,22 @@ from hypothesis import HealthCheck, Phase, given, settings
 from hypothesis import strategies as st  # noqa: F401  (re-exported)
 
 
+def _no_gc_timing():
+    """Hypothesis times garbage collections with a gc callback (for its deadline accounting, which is switched off
+    here).  When a case deliberately runs a frame away from the recursion limit that callback itself hits
+    RecursionError and the interpreter prints 'Exception ignored in ...' on standard error.  Keep it from being
+    installed: nothing here uses deadlines."""
+    try:
+        from hypothesis.internal.conjecture import junkdrawer
+        if hasattr(junkdrawer, "_gc_initialized"):
+            junkdrawer._gc_initialized = True
+    except Exception:  # noqa: BLE001 - cosmetic only
+        pass
+
+
+_no_gc_timing()
+
+
 def drive(strategy, n, seed, body, shrink=False):
     """Run body(x) on n examples drawn from strategy, deterministically from seed."""
     phases = [Phase.generate] + ([Phase.shrink] if shrink else [])
